@@ -37,6 +37,12 @@ POSITIONS = {
     "index_var": [("assign", "ys", ("list", [V("n"), I(7)]), "[int...]"), ("assign", "ki", V("K")), ("return", ("index", V("ys"), "ki"))],
     "list_literal": [("assign", "zs", ("list", [V("n"), V("X")]), "[int...]"), ("return", ("index", V("zs"), 1))],
     "call_arg": [("return", ("call", "h", [V("n"), V("X")]))],
+    "mcall_arg": [("assign", "tmp", ("list", [I(0)]), "[int...]"), ("expr", ("mcall", V("tmp"), "push", [V("X")])), ("return", B("+", V("n"), ("index", V("tmp"), 1)))],
+    "mcall_receiver": [("return", B("+", V("n"), ("mcall", V("L"), "len", [])))],
+    "index_assign_rhs": [("assign", "tmp", ("list", [I(0), I(1)]), "[int...]"), ("setindex", V("tmp"), 0, V("X")), ("return", B("+", V("n"), ("index", V("tmp"), 0)))],
+    "index_assign_target": [("setindex", V("L"), 0, V("n")), ("return", ("index", V("L"), 0))],
+    "map_literal": [("assign", "mm", ("map", "str", "int", [(("str", "a"), V("X"))])), ("return", B("+", V("n"), ("or", ("mindex", V("mm"), ("str", "a")), I(0))))],
+    "field_assign_rhs": None,
     "assert": [("assert", B("!=", V("X"), I(4))), ("return", V("n"))],
     "neg": [("return", B("+", V("n"), ("neg", V("X"))))],
     "not": [("if", [(("not", B("==", V("X"), I(1))), [("return", V("n"))])], None), ("return", I(0))],
@@ -52,6 +58,7 @@ POSITIONS = {
 POSITIONS["self_arg_only"] = [("if", [(B("<=", V("n"), I(0)), [("return", I(0))])], None),
                               ("return", B("+", I(1), ("selfcall", [B("-", B("-", B("%", V("n"), I(3)), I(1)), B("-", V("X"), V("X"))), ("nil",)])))]
 del POSITIONS["self_arg"]
+del POSITIONS["field_assign_rhs"]
 OWNER_KINDS = ["param", "local"]
 
 
